@@ -23,8 +23,15 @@ claim("C03",
       "Trusted: rustc MIR; BTreeSet iterates ascending; sort_unstable+dedup gives an ascending duplicate-free list. Not decided: Eq/Between/Include semantics, complement correctness, fusion order.",
       "MIR def-use taint of the bound into closure captures, constant-operand check on recursive calls, loop/iterator-source classification, must-pass-through", "DESIGN §4 C03")
 
+claim("C02",
+      "Decides maintenance symmetry and rollback completeness: index-family coverage of every maintaining function (families enumerated from the Collection type), inverse "
+      "operations in the rollback closure per family, rollback-or-poison on every error path after the first index mutation, id-bitmap/ordered-set pairing, agreement of the typed "
+      "B-tree wrapper's insert/remove/query arms and its equality fold, backfill-before-registration. Not a proof that index content equals the documents.",
+      "Trusted: rustc MIR; wrapper method names denote their effect. Not decided: equality of index content and documents over histories; BM25/HNSW answers; phantom absence after recovery.",
+      "sibling/table agreement over MIR (ADT field enumeration, match-arm extraction by dominating variant edges), must-pass-through with path-sensitive feasibility", "DESIGN §4 C02")
+
 _pending = "rules for this property are not built yet in this round (see DESIGN §10 order of work); not claimed until they are"
-for pid in ["C02", "C04", "C05", "C07", "C08", "C09", "C10", "C11", "C12", "C13", "C14", "C15", "C16", "C17", "C18", "C19"]:
+for pid in ["C04", "C05", "C07", "C08", "C09", "C10", "C11", "C12", "C13", "C14", "C15", "C16", "C17", "C18", "C19"]:
     NA[pid] = _pending
 NA["C20"] = ("every clause is an algebraic law over runtime multisets of assertions (permutation invariance, monotone score fold, thresholds); "
              "no clause is visible in the shape of the code, so static analysis cannot decide it (DESIGN §6)")
